@@ -528,11 +528,27 @@ func (w *World) sync(id string, out int) bool {
 // sweepToFixpoint: sync every table once per sweep (random order, no eliminations) until a sweep
 // asks for nothing; returns the number of sweeps that asked for something
 func (w *World) sweepToFixpoint(bound int) (int, bool) {
+	// the order within a sweep: a fresh random order every sweep, or - adversarial and the same rule for
+	// every sweep - the fullest table first, or the emptiest first
+	mode := w.rng.Intn(3)
+	w.rep.Inc([]string{"class_sweeps_in_random_order", "class_sweeps_fullest_table_first", "class_sweeps_emptiest_table_first"}[mode])
+	if w.status == 0 {
+		w.rep.Inc("class_sweeps_while_registration_on_hold")
+	}
 	for sweeps := 0; sweeps <= bound; sweeps++ {
 		asked := false
 		ids := append([]string{}, w.order...)
 		w.rng.Shuffle(len(ids), func(i, j int) { ids[i], ids[j] = ids[j], ids[i] })
-		w.trace = append(w.trace, "|sweep")
+		if mode != 0 {
+			sort.SliceStable(ids, func(i, j int) bool {
+				a, b := len(w.tables[ids[i]]), len(w.tables[ids[j]])
+				if mode == 1 {
+					return a > b
+				}
+				return a < b
+			})
+		}
+		w.trace = append(w.trace, "|sweep"+[]string{"", ":fullest-first", ":emptiest-first"}[mode])
 		for _, id := range ids {
 			if _, ok := w.tables[id]; !ok {
 				continue
@@ -621,8 +637,8 @@ func runWorldHistory(w *World, r *rand.Rand, withSweep bool) {
 		w.check("release")
 	}
 	if withSweep && !w.failed && len(w.tables) > 0 && w.nextT > 0 {
-		if w.status == 0 {
-			w.setStatus(1) // resume before looking for the fixpoint
+		if w.status == 0 && r.Intn(2) == 0 {
+			w.setStatus(1) // resume before looking for the fixpoint - or look for it while registration is on hold
 		}
 		w.sweepCheck()
 	}
